@@ -279,8 +279,10 @@ def build_menu(key, n, has_trailing, menu):
                 E('arrayop', (oname, 'self'), f"a {sym} a", True)
                 E('arrayop', (oname, 'ones'), f"a {sym} Array({key!r}, [1] * len(a))", True)
                 E('arrayop', (oname, 'shorter'), f"a {sym} Array({key!r}, [1] * (len(a) + 1))", True)
-            E('compare', ('eq', 'self'), "a == a", True)
-            E('compare', ('lt', 'self'), "a < a", True)
+            # array operands: every operator against the array itself (all pairs equal) and against ones
+            for oname, sym in (('lt', '<'), ('le', '<='), ('gt', '>'), ('ge', '>='), ('eq', '=='), ('ne', '!=')):
+                E('compare', (oname, 'self'), f"a {sym} a", True)
+                E('compare', (oname, 'ones'), f"a {sym} Array({key!r}, [1] * len(a))", True)
     elif full:
         E('scalarop', ('add', 1), "a + 1", True)         # operators on non-numeric dtypes: must raise, array unchanged
         E('iop', ('add', 1), "a.__iadd__(1) is a", True)
@@ -488,6 +490,8 @@ def model_step(st, ev):
         vals = [dt.dec(c) for c in chunks]
         if other in ('self', 'list'):
             res = [OPS[oname](v, v) for v in vals]
+        elif other == 'ones':
+            res = [OPS[oname](v, 1) for v in vals]
         else:
             res = [OPS[oname](v, other) for v in vals]
         return OK(arr('bool', ['1' if r else '0' for r in res]), same)
